@@ -36,6 +36,7 @@ type RunLine struct {
 	StateHash    string            `json:"state"`
 	Writes       int               `json:"writes"`
 	Hooks        int               `json:"hooks"`
+	Reqs         int               `json:"reqs"`
 	Faults       map[string]int    `json:"faults,omitempty"`
 	Probes       map[string]int    `json:"probes,omitempty"`
 	Known        map[string]int    `json:"known,omitempty"`
@@ -178,7 +179,7 @@ func TestWorker(t *testing.T) {
 		close(runDone)
 		w := res.World
 		l := RunLine{Run: j.Run, Job: j.ID, Steps: res.Steps, Incs: res.Incs, Sim: res.SimSeconds, LogHash: res.LogHash,
-			StateHash: w.AbstractState(), Writes: w.CountWrites(), Hooks: len(w.Hooks), Faults: w.FaultsFired, Probes: w.Probes,
+			StateHash: w.AbstractState(), Writes: w.CountWrites(), Hooks: len(w.Hooks), Reqs: len(w.Reqs), Faults: w.FaultsFired, Probes: w.Probes,
 			Cfg: w.Cfg, TapeLen: len(res.Tape), Known: w.KnownSeen, Pos: j.Pos, Kind: j.Kind, Race: raceBuild}
 		if j.Ref {
 			l.Interactions = string(w.Interactions)
